@@ -341,6 +341,9 @@ func zzCheckQuiescent(mgr *Manager, model *zzWorld, label string) {
 	v.Release()
 	zzInService(mgr, func() {}) // let the release be processed
 
+	// C11: the tag graph is well-formed
+	zzInService(mgr, func() { zzCheckGraph(mgr) })
+
 	// C06: decided tag membership equals the definition evaluated on the current data
 	zzInService(mgr, func() {
 		for name, t := range mgr.tags {
@@ -356,6 +359,11 @@ func zzCheckQuiescent(mgr *Manager, model *zzWorld, label string) {
 					want = fs.sport == 80
 				case "sport:443":
 					want = fs.sport == 443
+				case "sport:9":
+					want = false
+				case zzSubDef:
+					// streams whose client port is at least that of a stream with client port 1000 (flow 0)
+					want = model.flows[0] != nil
 				case "id:0:":
 					want = true
 				case "service:web":
@@ -385,6 +393,8 @@ func zzStdCaptures() []zzCapture {
 }
 
 var zzThreshold int
+
+const zzSubDef = "@s:cport:1000 cport:@s:cport@:"
 
 // zzHalfWritten: base name of an index file a killed writer left behind.
 var zzHalfWritten string
@@ -419,6 +429,9 @@ func ZZ_SVC_Scenarios() {
 	zz.Assert(mgr.AddTag("service/web", "#222222", "sport:80") == nil, "addtag")
 	if zz.Param("idtag", 1) == 1 {
 		zz.Assert(mgr.AddTag("tag/all", "#333333", "id:0:") == nil, "addtag")
+	}
+	if zz.Param("subtag", 0) == 1 { // a tag whose definition has a sub-query: re-evaluated as a whole on every import
+		zz.Assert(mgr.AddTag("tag/sub", "#666666", zzSubDef) == nil, "addtag")
 	}
 	scenario := zz.Choice("scenario", zz.Param("scenarios", 5))
 	var early View
@@ -497,8 +510,55 @@ func ZZ_SVC_Scenarios() {
 			mgr.taggingJobRunning = true
 			idxs, rel = mgr.getIndexesCopy(0)
 		})
-		zz.Assert(mgr.UpdateTag("service/web", UpdateTagOperationUpdateQuery("sport:443")) == nil, "updatetag")
+		// ... to a definition with other members, or to one that matches nothing any more
+		newDef := []string{"sport:443", "sport:9"}[zz.Choice("newdef", 2)]
+		zz.Assert(mgr.UpdateTag("service/web", UpdateTagOperationUpdateQuery(newDef)) == nil, "updatetag")
 		mgr.updateTagJob("tag/viaweb", t, details, map[string]index.ConverterAccess{}, idxs, rel)
+		zzSettle(mgr)
+	case 8: // a tag is deleted and added again with the same definition, and gets referenced, while its tagging job is in flight
+		imp("b.pcap")
+		zzSettle(mgr)
+		var t tag
+		var idxs []*index.Reader
+		var rel indexReleaser
+		zzInService(mgr, func() { // what startTaggingJobIfNeeded does when it starts the job for service/web
+			ti := *mgr.tags["service/web"]
+			ti.Uncertain = mgr.allStreams
+			mgr.tags["service/web"] = &ti
+			t = ti
+			mgr.updatedStreamsDuringTaggingJob = bitmask.LongBitmask{}
+			mgr.resetStreamsDuringTaggingJob = bitmask.LongBitmask{}
+			mgr.addedStreamsDuringTaggingJob = bitmask.LongBitmask{}
+			mgr.taggingJobRunning = true
+			idxs, rel = mgr.getIndexesCopy(0)
+		})
+		zz.Assert(mgr.DelTag("service/web") == nil, "deltag")
+		zz.Assert(mgr.AddTag("service/web", "#222222", "sport:80") == nil, "addtag")
+		zz.Assert(mgr.AddTag("tag/viaweb", "#444444", "service:web") == nil, "addtag")
+		mgr.updateTagJob("service/web", t, map[string]query.TagDetails{}, map[string]index.ConverterAccess{}, idxs, rel)
+		zzSettle(mgr)
+		zz.Assert(mgr.DelTag("service/web") != nil, "deltag.referenced-tag-is-refused")
+	case 9: // a tag is deleted while its tagging job is in flight; later imports make a merge eligible
+		var t tag
+		var idxs []*index.Reader
+		var rel indexReleaser
+		zzInService(mgr, func() { // what startTaggingJobIfNeeded does when it starts the job for tag/big
+			ti := *mgr.tags["tag/big"]
+			ti.Uncertain = mgr.allStreams
+			mgr.tags["tag/big"] = &ti
+			t = ti
+			mgr.updatedStreamsDuringTaggingJob = bitmask.LongBitmask{}
+			mgr.resetStreamsDuringTaggingJob = bitmask.LongBitmask{}
+			mgr.addedStreamsDuringTaggingJob = bitmask.LongBitmask{}
+			mgr.taggingJobRunning = true
+			idxs, rel = mgr.getIndexesCopy(0)
+		})
+		zz.Assert(mgr.DelTag("tag/big") == nil, "deltag")
+		mgr.updateTagJob("tag/big", t, map[string]query.TagDetails{}, map[string]index.ConverterAccess{}, idxs, rel)
+		zzSettle(mgr)
+		imp("b.pcap")
+		zzSettle(mgr)
+		imp("c.pcap")
 		zzSettle(mgr)
 	case 7: // ... keeps giving the same answers for its whole lifetime
 		n1 := 0
